@@ -52,7 +52,7 @@ func runC07Process(c *sim.Ctx, t *testing.T) {
 	if _, isMap := msgs[1].(map[string]interface{}); !isMap {
 		msgs[1] = map[string]interface{}{"a": 1.0}
 	}
-	controls := []*core.Control{nil, {Limit: 6}}
+	controls := []*core.Control{nil, {Limit: 6}, {Limit: -1}, {Limit: 0}}
 	shape := ""
 	calls := 0
 	for _, node := range nodes {
@@ -106,7 +106,7 @@ func runC07Process(c *sim.Ctx, t *testing.T) {
 					if r.ActionFailed {
 						c.Count("failures_action")
 					}
-					if r.Kind == ref.Error && werr == nil && node != "error" {
+					if r.Kind == ref.Error && werr == nil && node != "error" && (ctl == nil || ctl.Limit > 0) {
 						ok := w != nil && len(w.Strides) > 0 && w.Strides[0].To != nil && w.Strides[0].To.NodeName == "error" &&
 							ref.HasKeys(w.Strides[0].To.Bs, "error", "lastNode", "lastBindings")
 						if ok {
@@ -127,7 +127,7 @@ func runC07Process(c *sim.Ctx, t *testing.T) {
 	c.Add("calls", 2*calls)
 	c.MixHash(shape)
 	c.Path = specJSON(gs)
-	c.Sample = map[string]interface{}{"spec": gs, "nodes": nodes, "factor_product": fmt.Sprintf("%d nodes x 3 bindings x 3 messages x 2 controls x {Step,Walk}", len(nodes))}
+	c.Sample = map[string]interface{}{"spec": gs, "nodes": nodes, "factor_product": fmt.Sprintf("%d nodes x 3 bindings x 3 messages x 4 controls (none, 6, -1, 0) x {Step,Walk}", len(nodes))}
 }
 
 // ---- document faults -----------------------------------------------------------
